@@ -452,8 +452,8 @@ def _match_at(parts, body, masked, pos, k, caps):
             depth -= 1
             if depth < 0:
                 return None
-        elif ch == ";" and depth == 0:
-            # a hole never spans a statement boundary
+        elif ch == ";" and depth == 0 and not val.startswith("stmts"):
+            # a hole never spans a statement boundary (holes named `$stmts..` may: they capture a block body)
             caps[val] = body[pos:end]
             return _match_at(parts, body, masked, end, k + 1, caps) if end > pos else None
         end += 1
